@@ -33,7 +33,7 @@ SPEC = {
     "race": True,
     "theorems": [
         "C15_trigger_exactly_once", "C15_weak_iteration", "C15_max_trigger_count", "C15_max_trigger_count_never_more",
-        "C15_max_trigger_count_seq",
+        "C15_max_trigger_count_seq", "C15_max_trigger_count_hooks",
         "C15_link", "C15_link_concurrent", "C15_promise_once", "C15_notifier", "C15_notifier_wait_race",
         "C15_notifier_old_witness", "C15_notifier_wait_race_old_witness",
         "C15_skeleton_Listener_Wait", "C15_skeleton_Listener_Deregister", "C15_skeleton_Notifier_removeListener",
@@ -52,7 +52,8 @@ SPEC = {
     "modelled": [
         "event.Event1 Hook/Unhook/Trigger/LinkTo/WithMaxTriggerCount/WithWorkerPool (hook level) as a sequential machine over hook records",
         "orderedmap.ForEach as used by Trigger: linked list with frozen next pointers of removed elements (weak iteration), any interleaving",
-        "trigger counters: one atomic Add per Trigger and per visited hook, any number of concurrent Trigger callers (one event, one hook)",
+        "trigger counters: one atomic Add per Trigger and per visited hook, any number of concurrent Trigger callers; one hook "
+        "(EventsMax) and any number of hooks with own limits (EventsMaxN)",
         "LinkTo concurrent with Trigger: linkTo under its mutex (acquire, Unhook, Hook+store+release) against iterating triggers of the "
         "target and user Hook/Unhook callers, registry with frozen next pointers (Hive/Model/EventsRelink.lean)",
         "promise.Event1 Trigger/OnTrigger/unsubscribe with every critical section and every callback invocation as one step",
